@@ -99,6 +99,29 @@ theorem defMeaning_allKnown {id : Nat} {reg : Registry} : ∀ (elems : List Unit
         (ih s' c' b' hes (fun e' he' => hres e' (List.mem_cons_of_mem _ he')))
 
 
+theorem allKnown_smul_eq (reg : Registry) (q : Rat) (a : Container) : allKnown reg (smul q a) = allKnown reg a := by
+  simp [allKnown, smul, List.all_map, Function.comp_def]
+
+/-- the test pint makes (`refsKnown`: every identifier of the expression is a registry key) is `allKnown` of the
+    UN-normalised container of the definition: a name with total exponent zero still counts -/
+theorem refsKnown_eq_allKnown {id : Nat} {reg : Registry} : ∀ (elems : List UnitElem) (k : Scale) (c : Container)
+    (md : Bool), defMeaning id elems = .ok (k, c, md) → refsKnown reg id elems = allKnown reg c := by
+  intro elems
+  induction elems with
+  | nil =>
+      intro k c md h
+      simp only [defMeaning, pure, Except.pure, Except.ok.injEq, Prod.mk.injEq] at h
+      rw [← h.2.1]; rfl
+  | cons e es ih =>
+      intro k c md h
+      obtain ⟨s, c1, b, s', c', b', he, hes, _, rfl, _⟩ := defMeaning_cons_ok h
+      obtain ⟨kp, q, m, _, _, _, _, _, rfl, _⟩ := elemMeaning_ok he
+      have ih' := ih s' c' b' hes
+      simp only [refsKnown, List.all_cons] at ih' ⊢
+      rw [ih']
+      simp [allKnown, add, smul, List.all_append, List.all_map, Function.comp_def]
+
+
 /-! ### conditions under which the work list succeeds -/
 
 /-- what a definition must satisfy on its own, whatever the state: zero offsets, a supported name, numbers that
@@ -188,11 +211,11 @@ theorem addNow_succeeds {id : Nat} {reg : Registry} {st : Store} {d : UDef} (inv
     rw [hgood e he]
     exact inv.keys _ (List.all_eq_true.mp hr e he)
   have hrr : refsResolve reg st d = true := List.all_eq_true.mpr hres
-  rw [addNow_of hoff hnew hsup hrr]
+  rw [addNow_of hoff hnew]
   have hnew' := hnew
   simp only [Store.isDefined, Bool.or_eq_false_iff] at hnew'
   refine ⟨norm k, norm c, ?_⟩
-  exact addUnit_of hdm hnew'.1 hnew'.2 hsup (allKnown_norm (defMeaning_allKnown _ _ _ _ hdm hres)) hmd
+  exact addUnit_of hdm hnew'.1 hnew'.2 hsup hrr hmd
 
 
 /-- what is still to be done can be done: the remaining definitions are locally well-formed, have fresh and distinct
